@@ -7,7 +7,7 @@
 From Coq Require Import List ZArith Bool Permutation.
 From DD Require Import Model.Circuit Model.Query Model.Edit Proofs.Semantics Proofs.CountsA Proofs.QueryDefs
   Proofs.EditReduce Proofs.EditRenumber Proofs.EditUnit Proofs.EditSpec Proofs.EditDispatch
-  Proofs.EditWF Proofs.EditQueries.
+  Proofs.EditWF Proofs.EditCore Proofs.EditQueries.
 Import ListNotations.
 Open Scope Z_scope.
 
@@ -295,7 +295,8 @@ Proof. exact unit_edit_WFQ. Qed.
 Print Assumptions C11_unit_WFQ.
 
 (* ... hence: the ALGORITHMS (Model/Query.v: execute_query with all its strategies, sat, the
-   syntactic core) run on the edited vector answer for the conjunction with the unit clause *)
+   cached core) run on the edited vector answer for the conjunction with the unit clause (count
+   and sat when the edit left no dead node, the core for every unit edit) *)
 Theorem C11_unit_then_count : forall (C : circuit) (n : nat) (l : Z) (A : cfg) (s : scratch),
   WFQ C n -> 1 <= Z.abs l <= Z.of_nat n -> 0 < MCA C n [l] -> no_dead (unit_edit C l) = true ->
   in_range n A -> Clean (unit_edit C l) s ->
@@ -311,12 +312,30 @@ Theorem C11_unit_then_sat : forall (C : circuit) (n : nat) (l : Z) (A : cfg),
 Proof. exact unit_then_sat. Qed.
 Print Assumptions C11_unit_then_sat.
 
+(* the cached core that rebuild recomputes (F7) with the repaired calculate_core (F22): exact for
+   EVERY unit edit - no hypothesis on the edited vector, which may contain dead (zero-count)
+   nodes, is then neither smooth nor no_dead and outside the scope of the WF theorems (K4) *)
 Theorem C11_unit_then_core : forall (C : circuit) (n : nat) (l : Z) (x : Z),
-  WFQ C n -> 1 <= Z.abs l <= Z.of_nat n -> 0 < MCA C n [l] -> no_dead (unit_edit C l) = true ->
+  WF C n -> 1 <= Z.abs l <= Z.of_nat n -> 0 < MCA C n [l] ->
   (In x (calculate_core (unit_edit C l) n) <->
    (forall m, In m (Models C n) -> In l m -> In x m)).
 Proof. exact unit_then_core. Qed.
 Print Assumptions C11_unit_then_core.
+
+Theorem C11_unit_then_core_models : forall (C : circuit) (n : nat) (l : Z) (x : Z),
+  WF C n -> 1 <= Z.abs l <= Z.of_nat n -> 0 < MCA C n [l] ->
+  (In x (calculate_core (unit_edit C l) n) <->
+   (forall m, In m (Models (unit_edit C l) n) -> In x m)).
+Proof. exact unit_then_core_models. Qed.
+Print Assumptions C11_unit_then_core_models.
+
+(* the configurations of the root of the edited vector are those of C without -l (list equality;
+   what the core theorem rests on) *)
+Theorem C11_unit_enum_root : forall (C : circuit) (n : nat) (l : Z),
+  WF C n -> 1 <= Z.abs l <= Z.of_nat n -> 0 < MCA C n [l] ->
+  enum_root (unit_edit C l) = filter (okA [l]) (enum_root C).
+Proof. exact unit_edit_enum_root. Qed.
+Print Assumptions C11_unit_enum_root.
 
 (* the re-flattening model (DfsPostOrder over the vector) preserves the function and the count *)
 Theorem C11_reflatten : forall (C : circuit) (s : asg),
@@ -329,9 +348,10 @@ Proof.
 Qed.
 Print Assumptions C11_reflatten.
 
-(* REFUTED (finding K4): after a unit edit the vector can contain dead (zero-count) branches; it
-   is then neither no_dead nor smooth, and the syntactic core (calculate_core, recomputed by
-   rebuild since F7) under-reports.  Witness = a vector the d4 loader produces
+(* REFUTED for the code before F22 (finding K4, repaired): after a unit edit the vector can
+   contain dead (zero-count) branches; it is then neither no_dead nor smooth, and the syntactic
+   core of the old code (calculate_core_v0, recomputed by rebuild since F7) under-reports; the
+   repaired calculate_core is exact on the same vector (C11_unit_then_core).  Witness = a vector the d4 loader produces
    ('o 1 0 / o 2 0 / t 3 0 / f 4 0 / 1 3 1 2 3 0 / 1 2 -1 0 / 2 4 2 0 / 2 3 -2 3 0', 3 features),
    edit: add the unit clause 2; literal 1 is in every model but not in the core. *)
 Definition k4_circuit : circuit :=
@@ -342,7 +362,8 @@ Theorem C11_unit_core_refuted :
   exists C n l x,
     WFQ C n /\ no_dead C = true /\ 1 <= Z.abs l <= Z.of_nat n /\ 0 < MCA C n [l] /\
     (forall m, In m (Models (unit_edit C l) n) -> In x m) /\
-    ~ In x (calculate_core (unit_edit C l) n) /\
+    ~ In x (calculate_core_v0 (unit_edit C l) n) /\
+    In x (calculate_core (unit_edit C l) n) /\
     no_dead (unit_edit C l) = false /\ smooth (unit_edit C l) = false.
 Proof.
   exists k4_circuit, 3%nat, 2, 1.
@@ -352,6 +373,7 @@ Proof.
   split; [vm_compute; reflexivity|].
   split; [vm_compute; intros m [<-|[]]; now left|].
   split; [vm_compute; intros [H|[H|[]]]; discriminate|].
+  split; [vm_compute; now left|].
   split; vm_compute; reflexivity.
 Qed.
 Print Assumptions C11_unit_core_refuted.
@@ -368,7 +390,8 @@ Example ex_c11_unit :
   Models k4_circuit 3 = [[1; 2; 3]; [-1; -2; 3]] /\
   Models (unit_edit k4_circuit 2) 3 = [[1; 2; 3]] /\
   root_count (unit_edit k4_circuit 2) = 1 /\
-  calculate_core (unit_edit k4_circuit 2) 3 = [2; 3] /\
+  calculate_core_v0 (unit_edit k4_circuit 2) 3 = [2; 3] /\
+  calculate_core (unit_edit k4_circuit 2) 3 = [1; 2; 3] /\
   check_wf (strip_dead (unit_edit k4_circuit 2)) 3 = true.
 Proof. vm_compute. repeat split. Qed.
 
